@@ -1,5 +1,5 @@
 """Property -> rule composition."""
-from .rules import kdefects, numeric
+from .rules import kdefects, numeric, seed
 
 DECISION_C05 = ['numqi.entangle.ppt.is_ppt', 'numqi.entangle.ppt.is_generalized_ppt',
                 'numqi.entangle.ppt.get_generalized_ppt_boundary', 'numqi.entangle._misc.check_swap_witness',
@@ -10,7 +10,7 @@ DECISION_C20 = ['numqi.matrix_space._numerical_range.detect_real_matrix_subspace
 
 
 def dev(proj, rep, tier):
-    numeric.t1(proj, rep, DECISION_C05 + DECISION_C20)
+    seed.run(proj, rep, None)
 
 
 PROPS = {'DEV': dev}
